@@ -386,6 +386,15 @@ func (e *Engine) verifyFunction(fn *ssa.Function, fc *FuncContract) (res *FuncRe
 				if len(fn.FreeVars) > 0 {
 					c := fv.fresh("selfclo", "Int")
 					st.assume(fmt.Sprintf("(= (fn_of %s) %s)", c, self.T))
+					if fvv, ok := fr.vals[fn.FreeVars[0]]; ok && fvv.S == "Int" {
+						pt, isPtr := fn.FreeVars[0].Type().Underlying().(*types.Pointer)
+						if isPtr && readOnlyFreeVar(fn) && fv.u.sortOf(pt.Elem(), fv.bv) == "Int" {
+							// captured by reference, only read: the closure argument is the cell's value
+							st.assume(fmt.Sprintf("(= (clo_arg0 %s) (select %s %s))", c, fv.heap(st, "Int"), fvv.T))
+						} else {
+							st.assume(fmt.Sprintf("(= (clo_arg0 %s) %s)", c, fvv.T))
+						}
+					}
 					self.T = c
 				}
 				fr.params["self"] = self
@@ -504,6 +513,8 @@ func buildSMT(prelude, decls string, o *Obligation) string {
 (declare-fun bit_xor (Int Int) Int)
 (declare-fun bit_andnot (Int Int) Int)
 (declare-fun fn_of (Int) Int)
+(declare-fun clo_arg0 (Int) Int)
+(declare-fun rtype (Int) Int)
 (declare-fun cnt_lt ((Array Int Int) Int Int Int) Int)
 `)
 	b.WriteString(decls)
